@@ -393,7 +393,7 @@ func c01r3(c *core.Ctx) {
 				continue
 			}
 			key := fmt.Sprintf("write:session.%s@%s", fld, fname(f))
-			recvOK := f.Signature.Recv() != nil && core.TypeIs(f.Signature.Recv().Type(), sessT)
+			recvOK := core.TypeIs(recvType(f), sessT)
 			valOK := false
 			why := ""
 			switch fld {
